@@ -1486,6 +1486,9 @@ impl DnsOutPacket {
 
         if self.size() > MAX_MSG_ABSOLUTE {
             self.data.truncate(start_size);
+            // Forget the compression offsets that point into the removed bytes.
+            self.names
+                .retain(|_, offset| (*offset as usize) < start_size);
             self.state = PacketState::Finished;
             return false;
         }
